@@ -235,7 +235,7 @@ func CheckExec(prop, tier string) int {
 		if wr.Crash != "" {
 			fmt.Printf("ERROR: worker crashed on program %s: %s\n", progs[i].ID, tailStr(wr.Crash, 3000))
 			if strings.Contains(wr.Crash, "panic:") && strings.Contains(wr.Crash, "go-task/task") {
-				path := rep.WriteReplay(prop, map[string]any{"property": prop, "program": progs[i], "taskfile": progs[i].Taskfile(), "crash": wr.Crash})
+				path := rep.WriteReplay(prop, map[string]any{"property": prop, "program": progs[i], "taskfile": progs[i].AllFiles(), "crash": wr.Crash})
 				fmt.Printf("NOTE: the executor panicked (replay %s); reported under C16, not %s\n", path, prop)
 			}
 			harnessErrs++
@@ -312,7 +312,7 @@ func CheckExec(prop, tier string) int {
 				continue // one replay per signature
 			}
 			r := results[k.prog].Runs[k.run]
-			bundle := replayBundle{Property: prop, Sig: v.Sig, Program: progs[k.prog], Taskfile: progs[k.prog].Taskfile(),
+			bundle := replayBundle{Property: prop, Sig: v.Sig, Program: progs[k.prog], Taskfile: progs[k.prog].AllFiles(),
 				Release: r.Released, Gates: items[k.prog].Gates, Trace: r.Trace, Pretty: TraceString(r.Trace)}
 			// confirm by re-execution with the same release order
 			rr := Run(Job{Prog: progs[k.prog], Script: r.Released, Gates: items[k.prog].Gates, Snapshot: true}, "/dev/shm")
@@ -424,7 +424,7 @@ func CheckExec(prop, tier string) int {
 						rp.KnownFinding(f)
 						continue
 					}
-					path := rep.WriteReplay(prop, map[string]any{"property": prop, "sig": sig, "program": progs[i], "taskfile": progs[i].Taskfile(), "exit_code_flag": x,
+					path := rep.WriteReplay(prop, map[string]any{"property": prop, "sig": sig, "program": progs[i], "taskfile": progs[i].AllFiles(), "exit_code_flag": x,
 						"cli_exit": code, "in_process_returns": fmt.Sprint(seenRC), "output": out})
 					rp.Note("violation %s/%s on program %s: the CLI exits %d, the Executor returned %v", prop, sig, progs[i].ID, code, seenRC)
 					rp.Violation(path)
